@@ -494,7 +494,16 @@ def timerPromptOk (s : State) (τ : Timer) : Bool :=
   -- a zero-period interval is gone (panicked, or aborted) by the first quiescent point
   && !(τ.kind == .interval && τ.period == 0 && τ.res == .pending)
 
+/-- POSITIVE half of `exit_after` / `kill_after` (quiescent points): once a `kill_after` has acted the
+actor is gone; once an `exit_after` has acted it has at least stopped accepting (it is gone, or its
+message loop has ended and it sits in `post_stop`) -/
+def stopsOk (s : State) (τ : Timer) : Bool :=
+  (!(τ.kind == .killAfter && !τ.sentAt.isEmpty) || s.target.exit.isSome) &&
+  (!(τ.kind == .exitAfter && !τ.sentAt.isEmpty) || s.target.closedAt.isSome)
+
+def okPrompt1 (s : State) : Bool := s.timers.all (timerPromptOk s)
+
 /-- C12, clauses that hold at the quiescent points of a macro run. -/
-def okPrompt (s : State) : Bool := s.timers.all (timerPromptOk s)
+def okPrompt (s : State) : Bool := okPrompt1 s && s.timers.all (stopsOk s)
 
 end Timers
